@@ -985,7 +985,7 @@ func minimiseAndVerify(b *build, prop string, vm violationMsg, seed uint64, race
 		if vm.Cold {
 			cold = 1
 		}
-		c2 := exec.Command(bin, "min", "-regen", fmt.Sprintf("%s,%s,%d,%d,%d,%d", prop, vm.V.Class, vm.BaseSeed, vm.Worker, vm.Run, cold), "-out", minOut, "-secs", "75")
+		c2 := exec.Command(bin, "min", "-regen", fmt.Sprintf("%s,%s,%d,%d,%d,%d", prop, vm.V.Class, vm.BaseSeed, vm.Worker, vm.Run, cold), "-out", minOut, "-secs", "150")
 		c2.Env = append(goEnv(), "GORACE=halt_on_error=0 atexit_sleep_ms=0 log_path=/dev/null")
 		out, _ = c2.CombinedOutput()
 		if _, err := os.Stat(minOut); err == nil {
